@@ -232,8 +232,8 @@ def main(argv=None):
             if args.list:
                 # Dump RecordDescriptors
                 desc = rec._desc
-                if desc.descriptor_hash not in seen_desc:
-                    seen_desc.add(desc.descriptor_hash)
+                if desc not in seen_desc:
+                    seen_desc.add(desc)
                     print(f"# {desc}")
                     print(desc.definition())
                     print()
